@@ -1,0 +1,97 @@
+//! A file the loader accepts yields a command list that a fresh ConfigState
+//! accepts in full, with no frontend left without listener and nothing
+//! silently dropped.  Each test is a file that used to break that.
+
+use std::{fs, path::PathBuf};
+
+use sozu_command_lib::{
+    config::{Config, ConfigBuilder, ConfigError, FileConfig},
+    state::ConfigState,
+};
+
+const CERT: &str = concat!(env!("CARGO_MANIFEST_DIR"), "/assets/certificate.pem");
+const KEY: &str = concat!(env!("CARGO_MANIFEST_DIR"), "/assets/key.pem");
+
+fn temp_dir(name: &str) -> PathBuf {
+    let dir = std::env::temp_dir().join(format!("sozu_probe_c20r2_{}_{}", std::process::id(), name));
+    fs::create_dir_all(&dir).expect("create temp dir");
+    dir
+}
+
+fn load(content: &str, name: &str) -> Result<Config, ConfigError> {
+    let path = temp_dir(name).join("config.toml");
+    fs::write(&path, content).expect("write toml");
+    let path_str = path.to_str().unwrap();
+    let file_config = FileConfig::load_from_path(path_str)?;
+    ConfigBuilder::new(file_config, path_str).into_config()
+}
+
+/// Ok(None): refused at load time.  Ok(Some(state)): accepted and every
+/// command accepted.  Err(list): accepted, but the fresh state refused some.
+fn rejected_or_fully_applied(content: &str, name: &str) -> Result<Option<ConfigState>, Vec<String>> {
+    let config = match load(content, name) {
+        Err(e) => {
+            println!("{name}: refused at load time: {e}");
+            return Ok(None);
+        }
+        Ok(config) => config,
+    };
+    let mut state = ConfigState::new();
+    let mut refused = Vec::new();
+    for message in config.generate_config_messages().unwrap() {
+        if let Err(e) = state.dispatch(&message.content) {
+            refused.push(format!("{}: {e}", message.id));
+        }
+    }
+    if refused.is_empty() {
+        Ok(Some(state))
+    } else {
+        Err(refused)
+    }
+}
+
+fn orphans(state: &ConfigState) -> Vec<String> {
+    let mut out = Vec::new();
+    for (key, front) in &state.http_fronts {
+        if !state.http_listeners.contains_key(&front.address) {
+            out.push(format!("HTTP frontend {key} has no HTTP listener"));
+        }
+    }
+    for (key, front) in &state.https_fronts {
+        if !state.https_listeners.contains_key(&front.address) {
+            out.push(format!("HTTPS frontend {key} has no HTTPS listener"));
+        }
+    }
+    out
+}
+
+/// P1: `sozu_id_header` is validated by ConfigState::add_http(s)_listener
+/// (validate_sozu_id_header) but not by the loader.
+#[test]
+fn p1_listener_with_reserved_sozu_id_header() {
+    for value in ["Host", "", "bad:name"] {
+        let toml = format!(
+            r#"
+command_socket = "/tmp/sozu_probe.sock"
+worker_count = 1
+
+[[listeners]]
+protocol = "http"
+address = "127.0.0.1:8080"
+sozu_id_header = "{value}"
+
+[clusters.web]
+protocol = "http"
+frontends = [ {{ address = "127.0.0.1:8080", hostname = "example.com" }} ]
+backends = [ {{ address = "127.0.0.1:9001" }} ]
+"#
+        );
+        let result = rejected_or_fully_applied(&toml, "p1");
+        assert!(
+            result.is_ok(),
+            "sozu_id_header = {value:?}: accepted at load time, refused by a fresh state: {:#?}",
+            result.err()
+        );
+    }
+}
+
